@@ -39,6 +39,9 @@ func execHist(spec *RunSpec, st *Stats) *Violation {
 			if op.Doc == prevDoc {
 				st.Inc("probe.same_doc_back_to_back")
 			}
+			if op.Reuse {
+				st.Inc("probe.caller_reuses_read_buffer")
+			}
 		}
 		prevDoc = op.Doc
 		if res.Panic != "" {
@@ -250,15 +253,17 @@ func genHistSpec(p *histParams, c *Corpus, run int) *RunSpec {
 		}
 		return ro.Intn(len(docs))
 	}
+	reuseRun := ro.Split("reuse").Chance(1, 4) // in a quarter of the runs the caller reuses one read buffer
 	for len(ops) < nOps {
 		k := ro.Intn(100)
 		stack := genStack(ro)
 		ctx := ro.Chance(1, 5)
+		reuse := reuseRun && ro.Chance(3, 4)
 		switch {
 		case k < 34:
-			ops = append(ops, Op{Kind: "Convert", Doc: docFor(), Stack: stack, Ctx: ctx})
+			ops = append(ops, Op{Kind: "Convert", Doc: docFor(), Stack: stack, Ctx: ctx, Reuse: reuse})
 		case k < 40:
-			ops = append(ops, Op{Kind: "PkgConvert", Doc: docFor(), Stack: stack, Ctx: ctx})
+			ops = append(ops, Op{Kind: "PkgConvert", Doc: docFor(), Stack: stack, Ctx: ctx, Reuse: reuse})
 		case k < 42:
 			// an instance of another configuration is created and used between two uses of ours
 			am := "any"
@@ -269,13 +274,13 @@ func genHistSpec(p *histParams, c *Corpus, run int) *RunSpec {
 			if ro.Chance(1, 3) {
 				ac = Config{}
 			}
-			ops = append(ops, Op{Kind: "AuxConvert", Doc: docFor(), Stack: stack, Aux: &ac})
+			ops = append(ops, Op{Kind: "AuxConvert", Doc: docFor(), Stack: stack, Aux: &ac, Reuse: reuse})
 		case k < 56:
 			slot := ro.Intn(8)
 			ops = append(ops, Op{Kind: "Parse", Doc: docFor(), Tree: slot, Ctx: ctx, Reader: ro.Chance(1, 4)})
 			liveTrees = append(liveTrees, slot)
 		case k < 62:
-			ops = append(ops, Op{Kind: "ParseRender", Doc: docFor(), Stack: stack, Ctx: ctx, Reader: ro.Chance(1, 4)})
+			ops = append(ops, Op{Kind: "ParseRender", Doc: docFor(), Stack: stack, Ctx: ctx, Reader: ro.Chance(1, 4), Reuse: reuse})
 		case k < 84:
 			if len(liveTrees) == 0 {
 				continue
@@ -309,6 +314,14 @@ func genHistSpec(p *histParams, c *Corpus, run int) *RunSpec {
 
 // genFault draws a fault plan; offsets up to maxK.
 func genFault(r *Rng, maxK int) *FaultPlan {
+	f := genFault0(r, maxK)
+	if f.Kind != "short+nil" && r.Chance(1, 3) {
+		f.Err = pick(r, errKinds[1:])
+	}
+	return f
+}
+
+func genFault0(r *Rng, maxK int) *FaultPlan {
 	switch r.Intn(10) {
 	case 0, 1, 2, 3:
 		return &FaultPlan{Kind: "short+err", K: r.Intn(maxK)}
